@@ -1,13 +1,13 @@
 SPECIFICATION MSpec
 CONSTANTS NW = 2
- MaxD = 3
- MaxS = 2
- MaxTag = 2
+ MaxD = 4
+ MaxS = 3
+ MaxTag = 3
  MaxObj = 1
- MaxL = 3
- Flags = {0, 1}
+ MaxL = 4
+ Flags = {0, 1, 2}
  YieldOpts = {2}
- Ops = {"create", "join", "yield"}
+ Ops = {"create", "join", "tryjoin", "detach", "yield"}
 INVARIANT OK
 INVARIANT ExactlyOnePlace
 INVARIANT RunnableSaved
